@@ -43,6 +43,10 @@ def cases(draw):
     if draw(st.integers(0, 2)) == 0:
         opts['layer'] = draw(common.layer_pattern_strategy(names + ['UnitTests']))
     opts['list'] = draw(st.sampled_from([True, True, False]))
+    # where the switches come from: the command line, or the defaults a test script hands to run() - one option set
+    movable = [k for k in ('unit', 'non_unit', 'all', 'at_level', 'only_level') if opts.get(k) not in (None, False)]
+    if movable and draw(st.integers(0, 2)) == 0:
+        opts['in_defaults'] = draw(st.lists(st.sampled_from(movable), min_size=1, max_size=len(movable), unique=True))
     return {'spec': spec, 'opts': opts}
 
 
@@ -65,7 +69,9 @@ class InProc(Part):
     def execute(self, case):
         spec = common.with_prefix(case['spec'])
         opts = case['opts']
-        run = drive.run_inproc(spec, common.args_of(opts))
+        moved = opts.get('in_defaults') or []
+        run = drive.run_inproc(spec, common.args_of({k: v for k, v in opts.items() if k not in moved}),
+                               defaults=common.args_of({k: opts[k] for k in moved}))
         viol = common.run_escaped(run, 'C09')
         sel = expected(spec, opts)
         want = {ln: sorted(r['str'] for r in recs) for ln, recs in sel.items()}
@@ -121,6 +127,8 @@ class InProc(Part):
         if opts.get('only_level') is not None:
             labels.append('only-level')
         labels.append('list' if opts.get('list') else 'run')
+        if opts.get('in_defaults'):
+            labels.append('switches-in-defaults')
         return Outcome(viol, labels, competing and boundary)
 
 
